@@ -45,11 +45,11 @@ func main() {
 	if only == "" || only == "stream" {
 		phaseStream(r)
 	}
-	if only == "" || only == "stack" {
-		phaseStack(r)
-	}
 	if only == "" || only == "mconn" {
 		phaseMconn(r)
+	}
+	if only == "" || only == "stack" { // after mconn: the event search yields the shorter replay for a shared key
+		phaseStack(r)
 	}
 	if only != "" {
 		r.Capped("C18_ONLY=" + only + ": only one part was run")
